@@ -1,8 +1,524 @@
 package main
 
+import (
+	"fmt"
+	"go/ast"
+	"go/token"
+	"strings"
+)
+
 func init() { extractors["C19"] = extractC19 }
+
+const mwDir = "message/router/middleware/"
+
+// handlerLit finds the innermost function literal with the shape of a message.HandlerFunc
+// (one parameter, two results) inside fd, and the name of the wrapped handler (the parameter of type
+// message.HandlerFunc of the closest enclosing function).
+func c19HandlerLit(fd *ast.FuncDecl) (lit *ast.FuncLit, hName string) {
+	hName = c19HandlerParam(fd.Type)
+	var walk func(n ast.Node, h string)
+	walk = func(n ast.Node, h string) {
+		ast.Inspect(n, func(x ast.Node) bool {
+			fl, ok := x.(*ast.FuncLit)
+			if !ok {
+				return true
+			}
+			h2 := h
+			if p := c19HandlerParam(fl.Type); p != "" {
+				h2 = p
+			}
+			if fl.Type.Params != nil && len(fl.Type.Params.List) == 1 && fl.Type.Results != nil && len(fl.Type.Results.List) == 2 {
+				lit, hName = fl, h2
+			}
+			walk(fl.Body, h2)
+			return false
+		})
+	}
+	walk(fd.Body, hName)
+	return
+}
+
+func c19HandlerParam(ft *ast.FuncType) string {
+	if ft.Params == nil {
+		return ""
+	}
+	for _, f := range ft.Params.List {
+		if se, ok := f.Type.(*ast.SelectorExpr); ok && se.Sel.Name == "HandlerFunc" && len(f.Names) == 1 {
+			return f.Names[0].Name
+		}
+	}
+	return ""
+}
+
+func c19ParamName(fl *ast.FuncLit) string {
+	if fl == nil || fl.Type.Params == nil || len(fl.Type.Params.List) != 1 || len(fl.Type.Params.List[0].Names) != 1 {
+		return "?"
+	}
+	return fl.Type.Params.List[0].Names[0].Name
+}
+
+// countCalls counts call expressions whose function renders as fun.
+func (c *ctx) c19CountCalls(n ast.Node, fun string) int {
+	k := 0
+	ast.Inspect(n, func(x ast.Node) bool {
+		if ce, ok := x.(*ast.CallExpr); ok && c.src(ce.Fun) == fun {
+			k++
+		}
+		return true
+	})
+	return k
+}
+
+type c19Names struct {
+	msg, h            string
+	orig, ctx, cancel string
+	x, err            string
+	recv              string
+}
+
+// wrapper statements in the language of WmModel/GoMw.lean
+func (c *ctx) c19WStmt(st ast.Stmt, n *c19Names) string {
+	unknown := ".unknown " + leanStr(c.src(st))
+	switch s := st.(type) {
+	case *ast.AssignStmt:
+		if s.Tok == token.DEFINE && len(s.Lhs) == 1 && len(s.Rhs) == 1 && c.src(s.Rhs[0]) == n.msg+".Context()" {
+			n.orig = c.src(s.Lhs[0])
+			return ".saveCtx"
+		}
+		if s.Tok == token.DEFINE && len(s.Lhs) == 2 && len(s.Rhs) == 1 {
+			if ce, ok := s.Rhs[0].(*ast.CallExpr); ok {
+				if c.src(ce.Fun) == "context.WithTimeout" && len(ce.Args) == 2 && n.orig != "" && c.src(ce.Args[0]) == n.orig {
+					n.ctx, n.cancel = c.src(s.Lhs[0]), c.src(s.Lhs[1])
+					return ".deriveTimeout"
+				}
+				if c.src(ce.Fun) == n.h && len(ce.Args) == 1 && c.src(ce.Args[0]) == n.msg {
+					n.x, n.err = c.src(s.Lhs[0]), c.src(s.Lhs[1])
+					return ".callAssign"
+				}
+			}
+		}
+	case *ast.DeferStmt:
+		if n.cancel != "" && c.src(s.Call) == n.cancel+"()" {
+			return ".deferCancel"
+		}
+		if fl, ok := s.Call.Fun.(*ast.FuncLit); ok && len(s.Call.Args) == 0 && len(fl.Body.List) == 2 && n.cancel != "" && n.orig != "" {
+			if c.src(fl.Body.List[0]) == n.cancel+"()" && c.src(fl.Body.List[1]) == n.msg+".SetContext("+n.orig+")" {
+				return ".deferCancelRestore"
+			}
+		}
+	case *ast.ExprStmt:
+		t := c.src(s.X)
+		if n.ctx != "" && t == n.msg+".SetContext("+n.ctx+")" {
+			return ".setDerivedCtx"
+		}
+		if t == n.msg+".Ack()" {
+			return ".ack"
+		}
+		if ue, ok := s.X.(*ast.UnaryExpr); ok && ue.Op == token.ARROW && strings.HasSuffix(c.src(ue.X), ".ticker.C") {
+			return ".waitTick"
+		}
+	case *ast.ReturnStmt:
+		if len(s.Results) == 1 && c.src(s.Results[0]) == n.h+"("+n.msg+")" {
+			return ".callRet"
+		}
+		if len(s.Results) == 2 && n.x != "" && c.src(s.Results[0]) == n.x && c.src(s.Results[1]) == n.err {
+			return ".retBoth"
+		}
+	case *ast.IfStmt:
+		if s.Init == nil && s.Else == nil && n.err != "" && c.src(s.Cond) == n.err+" != nil" && len(s.Body.List) == 1 &&
+			c.src(s.Body.List[0]) == n.recv+".applyDelay("+n.msg+")" {
+			return ".ifErrApplyDelay"
+		}
+	}
+	return unknown
+}
+
+func (c *ctx) c19WrapperBody(rel, recv, fn string, facts Facts, key string) []string {
+	fd, err := c.fn(rel, recv, fn)
+	if err != nil {
+		facts[key+"_found"] = false
+		return []string{".unknown " + leanStr(err.Error())}
+	}
+	lit, h := c19HandlerLit(fd)
+	if lit == nil || h == "" {
+		facts[key+"_found"] = false
+		return []string{".unknown " + leanStr("no handler literal in "+fn)}
+	}
+	n := &c19Names{msg: c19ParamName(lit), h: h}
+	if fd.Recv != nil && len(fd.Recv.List) == 1 && len(fd.Recv.List[0].Names) == 1 {
+		n.recv = fd.Recv.List[0].Names[0].Name
+	}
+	var out []string
+	unknown := 0
+	for _, st := range lit.Body.List {
+		s := c.c19WStmt(st, n)
+		if strings.HasPrefix(s, ".unknown") {
+			unknown++
+		}
+		out = append(out, s)
+	}
+	facts[key+"_statements"] = len(out)
+	facts[key+"_unknown_statements"] = unknown
+	facts[key+"_inner_calls"] = c.c19CountCalls(lit.Body, h)
+	return out
+}
+
+// applyDelay in the language DStmt of WmModel/GoMw.lean
+func (c *ctx) c19DelayBody(facts Facts) []string {
+	fd, err := c.fn(mwDir+"delay_on_error.go", "DelayOnError", "applyDelay")
+	if err != nil {
+		return []string{".unknown " + leanStr(err.Error())}
+	}
+	recv := "d"
+	if fd.Recv != nil && len(fd.Recv.List[0].Names) == 1 {
+		recv = fd.Recv.List[0].Names[0].Name
+	}
+	msg := "msg"
+	if fd.Type.Params != nil && len(fd.Type.Params.List) == 1 && len(fd.Type.Params.List[0].Names) == 1 {
+		msg = fd.Type.Params.List[0].Names[0].Name
+	}
+	strVar, durVar, errVar := "", "", ""
+	var stmt func(st ast.Stmt) string
+	block := func(b *ast.BlockStmt) string {
+		var parts []string
+		for _, s := range b.List {
+			parts = append(parts, stmt(s))
+		}
+		return "[" + strings.Join(parts, ", ") + "]"
+	}
+	stmt = func(st ast.Stmt) string {
+		unknown := ".unknown " + leanStr(c.src(st))
+		switch s := st.(type) {
+		case *ast.AssignStmt:
+			if s.Tok == token.DEFINE && len(s.Lhs) == 1 && len(s.Rhs) == 1 && c.src(s.Rhs[0]) == msg+".Metadata.Get(delay.DelayedForKey)" {
+				strVar = c.src(s.Lhs[0])
+				return ".getStr"
+			}
+			if s.Tok == token.DEFINE && len(s.Lhs) == 2 && len(s.Rhs) == 1 && strVar != "" && c.src(s.Rhs[0]) == "time.ParseDuration("+strVar+")" {
+				durVar, errVar = c.src(s.Lhs[0]), c.src(s.Lhs[1])
+				return ".parse"
+			}
+			if s.Tok == token.ASSIGN && len(s.Lhs) == 1 && len(s.Rhs) == 1 && durVar != "" && c.src(s.Lhs[0]) == durVar {
+				r := c.src(s.Rhs[0])
+				if r == "time.Duration(float64("+durVar+") * "+recv+".Multiplier)" || r == "time.Duration("+recv+".Multiplier * float64("+durVar+"))" {
+					return ".mulFloat"
+				}
+				if r == recv+".MaxInterval" {
+					return ".setMax"
+				}
+			}
+			if s.Tok == token.MUL_ASSIGN && len(s.Lhs) == 1 && durVar != "" && c.src(s.Lhs[0]) == durVar && c.src(s.Rhs[0]) == "time.Duration("+recv+".Multiplier)" {
+				return ".mulTruncated"
+			}
+		case *ast.ExprStmt:
+			t := c.src(s.X)
+			if durVar != "" && t == "delay.Message("+msg+", delay.For("+durVar+"))" {
+				return ".writeVar"
+			}
+			if t == "delay.Message("+msg+", delay.For("+recv+".InitialInterval))" {
+				return ".writeInit"
+			}
+		case *ast.IfStmt:
+			if s.Init != nil {
+				return unknown
+			}
+			cond := c.src(s.Cond)
+			if strVar != "" && errVar != "" && (cond == strVar+" != \"\" && "+errVar+" == nil" || cond == errVar+" == nil && "+strVar+" != \"\"") {
+				if eb, ok := s.Else.(*ast.BlockStmt); ok {
+					return ".ifParsed " + block(s.Body) + " " + block(eb)
+				}
+			}
+			if durVar != "" && cond == durVar+" > "+recv+".MaxInterval" && s.Else == nil {
+				return ".ifGtMax " + block(s.Body)
+			}
+		}
+		return unknown
+	}
+	var out []string
+	for _, st := range fd.Body.List {
+		out = append(out, stmt(st))
+	}
+	unknown := 0
+	for _, s := range out {
+		unknown += strings.Count(s, ".unknown")
+	}
+	facts["applydelay_statements"] = len(out)
+	facts["applydelay_unknown_statements"] = unknown
+	return out
+}
+
+func (c *ctx) c19ConstValue(rel, name string) string {
+	f, err := c.file(rel)
+	if err != nil {
+		return "?"
+	}
+	val := "?"
+	ast.Inspect(f, func(x ast.Node) bool {
+		if vs, ok := x.(*ast.ValueSpec); ok {
+			for i, n := range vs.Names {
+				if n.Name == name && i < len(vs.Values) {
+					val = c.src(vs.Values[i])
+				}
+			}
+		}
+		return true
+	})
+	return val
+}
+
+func (c *ctx) c19Returns(n ast.Node) []string {
+	var out []string
+	ast.Inspect(n, func(x ast.Node) bool {
+		if r, ok := x.(*ast.ReturnStmt); ok {
+			out = append(out, c.src(r))
+		}
+		return true
+	})
+	return out
+}
 
 func extractC19(c *ctx) (Facts, error) {
 	facts := Facts{}
-	return facts, nil
+	var firstErr error
+	note := func(err error) {
+		if err != nil && firstErr == nil {
+			firstErr = err
+		}
+	}
+
+	// ---- generated bodies
+	var sb strings.Builder
+	sb.WriteString("/- GENERATED by harness/cmd/extract from message/router/middleware/*.go on every run – do not edit -/\n")
+	sb.WriteString("import WmModel.GoMw\nnamespace Wm.GoMw.Gen\nopen Wm.GoMw\n\n")
+	for _, w := range []struct{ name, file, recv, fn, key string }{
+		{"timeoutBody", "timeout.go", "", "Timeout", "timeout"},
+		{"instantAckBody", "instant_ack.go", "", "InstantAck", "instant_ack"},
+		{"throttleBody", "throttle.go", "Throttle", "Middleware", "throttle"},
+		{"delayMwBody", "delay_on_error.go", "DelayOnError", "Middleware", "delay_mw"},
+	} {
+		stmts := c.c19WrapperBody(mwDir+w.file, w.recv, w.fn, facts, w.key)
+		fmt.Fprintf(&sb, "def %s : List WStmt := [\n  %s\n]\n\n", w.name, strings.Join(stmts, ",\n  "))
+	}
+	fmt.Fprintf(&sb, "def applyDelayBody : List DStmt := [\n  %s\n]\n\n", strings.Join(c.c19DelayBody(facts), ",\n  "))
+	sb.WriteString("end Wm.GoMw.Gen\n")
+	note(c.writeLean("MwBody.lean", sb.String()))
+
+	// ---- CorrelationID
+	if fd, err := c.fn(mwDir+"correlation.go", "", "CorrelationID"); err != nil {
+		note(err)
+	} else {
+		lit, h := c19HandlerLit(fd)
+		if lit != nil {
+			m := c19ParamName(lit)
+			flat := c.stmtsFlat(lit.Body)
+			iCall := indexOf(flat, has(h+"("+m+")"))
+			iRead := indexOf(flat, has("MessageCorrelationID("+m+")"))
+			facts["correlation_reads_id_after_call"] = iCall >= 0 && iRead > iCall
+			facts["correlation_inner_calls"] = c.c19CountCalls(lit.Body, h)
+			// one loop over the produced messages whose body is the single call SetCorrelationID(id, out)
+			loops, okLoop := 0, false
+			var outsVar, errVar, idVar string
+			for _, st := range lit.Body.List {
+				if as, ok := st.(*ast.AssignStmt); ok && len(as.Lhs) == 2 && len(as.Rhs) == 1 && c.src(as.Rhs[0]) == h+"("+m+")" {
+					outsVar, errVar = c.src(as.Lhs[0]), c.src(as.Lhs[1])
+				}
+				if as, ok := st.(*ast.AssignStmt); ok && len(as.Lhs) == 1 && len(as.Rhs) == 1 && c.src(as.Rhs[0]) == "MessageCorrelationID("+m+")" {
+					idVar = c.src(as.Lhs[0])
+				}
+				if rs, ok := st.(*ast.RangeStmt); ok {
+					loops++
+					if outsVar != "" && c.src(rs.X) == outsVar && rs.Value != nil && len(rs.Body.List) == 1 &&
+						c.src(rs.Body.List[0]) == "SetCorrelationID("+idVar+", "+c.src(rs.Value)+")" {
+						okLoop = true
+					}
+				}
+			}
+			facts["correlation_sets_id_on_every_output"] = loops == 1 && okLoop
+			rets := c.c19Returns(lit.Body)
+			facts["correlation_returns_handler_results"] = len(rets) == 1 && outsVar != "" && rets[0] == "return "+outsVar+", "+errVar
+		}
+	}
+	if fd, err := c.fn(mwDir+"correlation.go", "", "SetCorrelationID"); err != nil {
+		note(err)
+	} else {
+		ok := false
+		if len(fd.Body.List) == 2 && fd.Type.Params != nil && len(fd.Type.Params.List) == 2 {
+			id := fd.Type.Params.List[0].Names[0].Name
+			m := fd.Type.Params.List[1].Names[0].Name
+			if is, isIf := fd.Body.List[0].(*ast.IfStmt); isIf && is.Else == nil && is.Init == nil &&
+				c.src(is.Cond) == "MessageCorrelationID("+m+") != \"\"" && len(is.Body.List) == 1 && c.src(is.Body.List[0]) == "return" &&
+				c.src(fd.Body.List[1]) == m+".Metadata.Set(CorrelationIDMetadataKey, "+id+")" {
+				ok = true
+			}
+		}
+		facts["set_correlation_id_only_when_get_is_empty"] = ok
+	}
+	if fd, err := c.fn(mwDir+"correlation.go", "", "MessageCorrelationID"); err != nil {
+		note(err)
+	} else {
+		rets := c.c19Returns(fd.Body)
+		facts["message_correlation_id_is_metadata_get"] = len(rets) == 1 && strings.HasSuffix(rets[0], ".Metadata.Get(CorrelationIDMetadataKey)")
+	}
+	facts["correlation_key"] = c.c19ConstValue(mwDir+"correlation.go", "CorrelationIDMetadataKey")
+
+	// ---- Recoverer
+	if fd, err := c.fn(mwDir+"recoverer.go", "", "Recoverer"); err != nil {
+		note(err)
+	} else {
+		lit, h := c19HandlerLit(fd)
+		if lit != nil {
+			m := c19ParamName(lit)
+			facts["recoverer_inner_calls"] = c.c19CountCalls(lit.Body, h)
+			facts["recoverer_never_repanics"] = c.c19CountCalls(lit.Body, "panic") == 0
+			named := lit.Type.Results != nil && len(lit.Type.Results.List) == 2 && len(lit.Type.Results.List[0].Names) == 1 && len(lit.Type.Results.List[1].Names) == 1
+			facts["recoverer_named_results"] = named
+			deferOK, valueKept := false, false
+			flagName := ""
+			if named {
+				errName := lit.Type.Results.List[1].Names[0].Name
+				for _, st := range lit.Body.List {
+					ds, ok := st.(*ast.DeferStmt)
+					if !ok {
+						continue
+					}
+					fl, ok := ds.Call.Fun.(*ast.FuncLit)
+					if !ok || len(fl.Body.List) != 1 {
+						continue
+					}
+					is, ok := fl.Body.List[0].(*ast.IfStmt)
+					if !ok || is.Init == nil || is.Else != nil {
+						continue
+					}
+					init := c.src(is.Init)
+					if !strings.HasSuffix(init, ":= recover()") {
+						continue
+					}
+					rv := strings.TrimSpace(strings.TrimSuffix(init, ":= recover()"))
+					cond := c.src(is.Cond)
+					if strings.HasPrefix(cond, rv+" != nil || ") {
+						flagName = strings.TrimPrefix(cond, rv+" != nil || ")
+						deferOK = true
+					}
+					if len(is.Body.List) == 1 {
+						t := c.src(is.Body.List[0])
+						valueKept = strings.HasPrefix(t, errName+" = errors.WithStack(RecoveredPanicError{V: "+rv+",")
+					}
+				}
+			}
+			facts["recoverer_defer_recovers_value_or_flag"] = deferOK
+			facts["recoverer_error_carries_recovered_value"] = valueKept
+			flat := c.stmtsFlat(lit.Body)
+			iFlagSet := indexOf(flat, func(s string) bool { return flagName != "" && s == flagName+" := true" })
+			iCall := indexOf(flat, has("= "+h+"("+m+")"))
+			iFlagClr := indexOf(flat, func(s string) bool { return flagName != "" && s == flagName+" = false" })
+			facts["recoverer_flag_set_before_and_cleared_after_call"] = iFlagSet >= 0 && iFlagSet < iCall && iCall < iFlagClr
+		}
+	}
+	if fd, err := c.fn(mwDir+"recoverer.go", "RecoveredPanicError", "Error"); err != nil {
+		note(err)
+	} else {
+		rets := c.c19Returns(fd.Body)
+		facts["recovered_error_text_has_value"] = len(rets) == 1 && strings.Contains(rets[0], "%#v") && strings.Contains(rets[0], ".V")
+	}
+
+	// ---- IgnoreErrors
+	if fd, err := c.fn(mwDir+"ignore_errors.go", "IgnoreErrors", "Middleware"); err != nil {
+		note(err)
+	} else {
+		lit, h := c19HandlerLit(fd)
+		if lit != nil {
+			facts["ignore_inner_calls"] = c.c19CountCalls(lit.Body, h)
+			key := ""
+			ast.Inspect(lit.Body, func(x ast.Node) bool {
+				if ix, ok := x.(*ast.IndexExpr); ok && strings.HasSuffix(c.src(ix.X), ".ignoredErrors") {
+					key = c.src(ix.Index)
+				}
+				return true
+			})
+			facts["ignore_matches_on"] = key
+			facts["ignore_returns"] = c.c19Returns(lit.Body)
+		}
+	}
+	if fd, err := c.fn(mwDir+"ignore_errors.go", "", "NewIgnoreErrors"); err != nil {
+		note(err)
+	} else {
+		facts["ignore_list_keyed_by_error_text"] = indexOf(c.stmtsFlat(fd.Body), has("[err.Error()] = struct{}{}")) >= 0
+	}
+
+	// ---- CircuitBreaker
+	if fd, err := c.fn(mwDir+"circuit_breaker.go", "CircuitBreaker", "Middleware"); err != nil {
+		note(err)
+	} else {
+		lit, h := c19HandlerLit(fd)
+		if lit != nil {
+			m := c19ParamName(lit)
+			facts["breaker_inner_calls"] = c.c19CountCalls(lit.Body, h)
+			rets := c.c19Returns(lit.Body)
+			facts["breaker_returns"] = rets
+			facts["breaker_executes_handler_call"] = len(rets) == 2 && rets[0] == "return "+h+"("+m+")"
+		}
+	}
+
+	// ---- Retry (only what the minimal model of C19 uses)
+	if fd, err := c.fn(mwDir+"retry.go", "Retry", "Middleware"); err != nil {
+		note(err)
+	} else {
+		lit, h := c19HandlerLit(fd)
+		if lit != nil {
+			m := c19ParamName(lit)
+			facts["retry_inner_call_sites"] = c.c19CountCalls(lit.Body, h)
+			flat := c.stmtsFlat(lit.Body)
+			iCtx := indexOf(flat, func(s string) bool { return s == "ctx := "+m+".Context()" })
+			iFirst := indexOf(flat, has(":= "+h+"("+m+")"))
+			iAgain := indexOf(flat, has("= "+h+"("+m+")"))
+			for i, s := range flat {
+				if strings.Contains(s, " = "+h+"("+m+")") && !strings.Contains(s, ":=") {
+					iAgain = i
+				}
+			}
+			facts["retry_reads_context_once_between_first_and_later_attempts"] = iFirst >= 0 && iFirst < iCtx && iCtx < iAgain
+			nCtxReads := 0
+			for _, s := range flat {
+				if strings.Contains(s, m+".Context()") {
+					nCtxReads++
+				}
+			}
+			facts["retry_context_reads"] = nCtxReads
+			doneCase := false
+			ast.Inspect(lit.Body, func(x ast.Node) bool {
+				if cc, ok := x.(*ast.CommClause); ok && cc.Comm != nil && strings.Contains(c.src(cc.Comm), "<-ctx.Done()") {
+					doneCase = len(cc.Body) == 1 && strings.HasPrefix(c.src(cc.Body[0]), "return ")
+				}
+				return true
+			})
+			facts["retry_returns_when_context_done"] = doneCase
+			rets := c.c19Returns(lit.Body)
+			facts["retry_last_return"] = rets[len(rets)-1]
+			exit := ""
+			ast.Inspect(lit.Body, func(x ast.Node) bool {
+				if is, ok := x.(*ast.IfStmt); ok && strings.Contains(c.src(is.Cond), "MaxRetries") {
+					exit = c.src(is.Cond)
+				}
+				return true
+			})
+			facts["retry_exit_condition"] = exit
+		}
+	}
+
+	// ---- delay metadata keys and writer
+	facts["delayed_for_key"] = c.c19ConstValue("components/delay/delay.go", "DelayedForKey")
+	facts["delayed_until_key"] = c.c19ConstValue("components/delay/delay.go", "DelayedUntilKey")
+	if fd, err := c.fn("components/delay/delay.go", "", "Message"); err != nil {
+		note(err)
+	} else {
+		flat := c.stmtsFlat(fd.Body)
+		facts["delay_message_writes_for_as_duration_string"] = indexOf(flat, has(".Metadata.Set(DelayedForKey, delay.duration.String())")) >= 0
+		facts["delay_message_writes_until"] = indexOf(flat, has(".Metadata.Set(DelayedUntilKey, ")) >= 0
+	}
+	if fd, err := c.fn("components/delay/delay.go", "", "For"); err != nil {
+		note(err)
+	} else {
+		facts["delay_for_keeps_duration"] = strings.Contains(c.src(fd.Body), "duration: delayedFor")
+	}
+	return facts, firstErr
 }
